@@ -35,7 +35,7 @@ OWNER = {
     "burst-missing": "C08", "burst-spurious": "C08", "burst-order": "C08", "burst-raised": "C08",
     "desired-undeliverable": "C08",
     "ota-reply-missing": "C10", "ota-reply-spurious": "C10", "ota-reply-wrong": "C10",
-    "ota-malformed-changed-session": "C10", "ota-malformed-replied": "C10", "reboot-missing": "C10",
+    "ota-malformed-changed-session": "C10", "ota-malformed-replied": "C10", "ota-request-raised": "C10", "reboot-missing": "C10",
     "reboot-spurious": "C10",
     "ota-advertised-wrong": "C09", "ota-block-wrong": "C09",
     "restart-lost-state": "C14", "stop-raised": "C14", "load-raised": "C13",
@@ -310,6 +310,9 @@ class NetRun:
                 if flds is not None and flds[2] == 3 and flds[4] == 3:
                     # the allocator must answer an id request with a fresh id or with silence, not by failing
                     self.add(vio("id-request-raised", {"line": entry[0], "exc": res[1], "msg": res[2]}, exc=res[1]))
+                if flds is not None and flds[2] == 4:
+                    # a firmware request - well-formed or not - is answered or ignored, it does not fail (C10's reading)
+                    self.add(vio("ota-request-raised", {"line": entry[0], "exc": res[1], "msg": res[2]}, exc=res[1]))
                 if flds is not None and flds[2] == 3 and flds[4] in (22, 32):
                     # failing at wake-up instead of refusing the desired value at call time
                     self.add(vio("burst-raised", {"line": entry[0], "exc": res[1], "msg": res[2]}, exc=res[1]))
@@ -736,6 +739,13 @@ class NetRun:
             self.add(vio("reboot-spurious", detail))
             return
         cls = {"missing": "reply-missing", "spurious": "reply-spurious", "wrong": "reply-wrong"}[kind]
+        if kind == "missing" and not self.model.sleeping(fields[0]):
+            # C07's side: "traffic for other nodes is never delayed" - the reply for a node that has NOT announced smart
+            # sleep is sitting in a hold-back queue instead of going out
+            node_obj = self.world.gateway.sensors.get(fields[0])
+            held = [str(x).strip() for x in (getattr(node_obj, "queue", None) or [])]
+            if held:
+                self.add(vio("awake-delayed", dict(detail, held=held[:4]), model_kind=exp.kind))
         self.add(vio(cls, detail, model_kind=exp.kind))
 
     def _check_callbacks(self, exp, fields, cbs):
@@ -825,6 +835,9 @@ class NetRun:
         if not resp:
             if exp.id_response == "required":
                 self.add(vio("id-response-missing", {"known": sorted(self.model.nodes)}))
+                # C05's side of the same event: an id request that can be served is answered with an id response
+                self.add(vio("reply-missing", {"line": f"{exp.id_header[0]};{exp.id_header[1]};3;0;3;", "expected": ["an id response"], "got": lines,
+                                               "model_kind": "id-request", "known": sorted(self.model.nodes)}, model_kind="id-request"))
                 # C04's side of the same event: an id that can be assigned creates a node in the tree
                 self.add(vio("id-node-missing", {"known": sorted(self.model.nodes), "tree": sorted(self.world.gateway.sensors, key=repr)[:12]}))
             self.probe("id_no_response")
